@@ -984,7 +984,7 @@ Lemma gen_tie_tables :
   chunk_loader_calls = ["read_and_decompress_chunk_range"; "read_unshuffle_and_decompress_chunk_range"] /\
   (* the reader's lazy caches (Model: d_mask, d_vh, d_ipad) *)
   reader_mutable = ["hw_info"; "include_padding"; "mask"; "variant_headers"] /\
-  users_mask = ["__init__"; "get_trace"; "get_unstructured_mask"; "read_variant_headers"] /\
+  users_mask = ["__init__"; "get_trace"; "get_tracefield_1d"; "get_unstructured_mask"; "read_variant_headers"] /\
   users_variant_headers = ["__init__"; "clear_variant_headers"; "gen_trace_header"; "get_tracefield_1d"; "read_variant_headers"] /\
   (* seismic_zfp.open: 1 + 2 (+ 4 on 3D files) readers on one handle *)
   emu_accessors_always = [("trace", "TraceAccessor"); ("header", "HeaderAccessor")] /\
